@@ -156,22 +156,25 @@ theorem adjOf_node (P : Params) (H d : Nat) (c x m s : Rat) (cs : List PT) :
   simp [adjOf, secondPass, secondPassL_eq_map, List.map_map, Function.comp_def]
   rfl
 
-theorem layout_eq (P : Params) (t : Tree) :
-    layout P t =
+theorem passes_eq (P : Params) (t : ST) :
+    passes P t =
       fin P (firstPass P t).height (adjOf P (firstPass P t).height 1 0 (firstPass P t)) 1 0
         (firstPass P t) := by
-  simp [layout, thirdPass_eq, fin, adjOf]
+  simp [passes, thirdPass_eq, fin, adjOf]
 
 /-! ## what the first pass establishes (`Good`), and what follows for the final tree -/
 
 /-- separation of consecutive siblings in the annotated tree -/
 def SepR (sib : Rat) (a b : PT) : Prop := a.x + a.shift + sib ≤ b.x + b.shift
 
+/-- consecutive siblings have preliminary `x` exactly `sib` apart -/
+def XChain (sib : Rat) (cs : List PT) : Prop := Chain (fun a b => b = a + sib) (cs.map PT.x)
+
 mutual
-/-- every node with children sits at `midpoint children + mod`, and consecutive children are at
-    least `sib` apart in `x + shift` -/
+/-- every node with children sits at `midpoint children + mod`, and the preliminary `x` of
+    consecutive children are `sib` apart (whatever the shifts on entry) -/
 def Good (sib : Rat) : PT → Prop
-  | .node x m _ cs => (cs ≠ [] → x = midpoint cs + m) ∧ Chain (SepR sib) cs ∧ GoodL sib cs
+  | .node x m _ cs => (cs ≠ [] → x = midpoint cs + m) ∧ XChain sib cs ∧ GoodL sib cs
 def GoodL (sib : Rat) : List PT → Prop
   | [] => True
   | c :: cs => Good sib c ∧ GoodL sib cs
@@ -183,7 +186,7 @@ theorem goodL_iff {sib : Rat} : ∀ {cs : List PT}, GoodL sib cs ↔ ∀ c ∈ c
 
 theorem good_node {sib x m s : Rat} {cs : List PT} :
     Good sib (.node x m s cs) ↔
-      (cs ≠ [] → x = midpoint cs + m) ∧ Chain (SepR sib) cs ∧ ∀ c ∈ cs, Good sib c := by
+      (cs ≠ [] → x = midpoint cs + m) ∧ XChain sib cs ∧ ∀ c ∈ cs, Good sib c := by
   simp [Good, goodL_iff]
 
 theorem good_addShift {sib d : Rat} : ∀ {t : PT}, Good sib (t.addShift d) ↔ Good sib t
@@ -230,23 +233,63 @@ theorem fin_midpoint (P : Params) (H : Nat) (a : Rat) :
   · obtain ⟨k0, hk0, rfl⟩ := List.mem_map.mp hk
     exact ih k0 hk0 (hg.2.2 k0 hk0) _ _ n hn
 
+mutual
+/-- `Q` holds of the shift vector of every sibling group of the annotated tree -/
+def PT.AllGroups (Q : List Rat → Prop) : PT → Prop
+  | .node _ _ _ cs => Q (cs.map PT.shift) ∧ PT.AllGroupsL Q cs
+def PT.AllGroupsL (Q : List Rat → Prop) : List PT → Prop
+  | [] => True
+  | c :: cs => PT.AllGroups Q c ∧ PT.AllGroupsL Q cs
+end
+
+theorem PT.allGroupsL_iff {Q : List Rat → Prop} :
+    ∀ {cs : List PT}, PT.AllGroupsL Q cs ↔ ∀ c ∈ cs, PT.AllGroups Q c
+  | [] => by simp [PT.AllGroupsL]
+  | c :: cs => by simp [PT.AllGroupsL, PT.allGroupsL_iff (cs := cs)]
+
+theorem PT.allGroups_node {Q : List Rat → Prop} {x m s : Rat} {cs : List PT} :
+    PT.AllGroups Q (.node x m s cs) ↔ Q (cs.map PT.shift) ∧ ∀ c ∈ cs, PT.AllGroups Q c := by
+  simp [PT.AllGroups, PT.allGroupsL_iff]
+
+theorem PT.allGroups_addShift {Q : List Rat → Prop} {d : Rat} :
+    ∀ {t : PT}, PT.AllGroups Q (t.addShift d) ↔ PT.AllGroups Q t
+  | .node x m s cs => by simp [PT.addShift, PT.AllGroups]
+
+/-- the stored shifts are non-decreasing from left to right within every sibling group -/
+def MonoPT (t : PT) : Prop := t.AllGroups (fun l => l.Pairwise (· ≤ ·))
+
+theorem sep_of_xchain {sib : Rat} : ∀ (l : List PT),
+    Chain (fun a b => b = a + sib) (l.map PT.x) → (l.map PT.shift).Pairwise (· ≤ ·) → Chain (SepR sib) l
+  | [], _, _ => trivial
+  | [_], _, _ => trivial
+  | a :: b :: l, hx, hs => by
+    simp only [List.map, Chain] at hx
+    simp only [List.map, List.pairwise_cons] at hs
+    refine ⟨?_, sep_of_xchain (b :: l) hx.2 (by simpa [List.pairwise_cons] using hs.2)⟩
+    have h1 := hx.1
+    have h2 := hs.1 b.shift (by simp)
+    unfold SepR
+    grind
+
 theorem fin_siblings (P : Params) (H : Nat) (a : Rat) :
-    ∀ (t : PT), Good P.sib t → ∀ (d : Nat) (c : Rat), ∀ s ∈ (fin P H a d c t).subtrees,
+    ∀ (t : PT), Good P.sib t → MonoPT t → ∀ (d : Nat) (c : Rat), ∀ s ∈ (fin P H a d c t).subtrees,
       Chain (fun u v => u.x + P.sib ≤ v.x) s.children := by
   apply PT.ind
-  intro x m s cs ih hg d c n hn
+  intro x m s cs ih hg hm d c n hn
   rw [good_node] at hg
+  unfold MonoPT at hm
+  rw [PT.allGroups_node] at hm
   rw [fin_node, mem_subtrees_node] at hn
   rcases hn with rfl | ⟨k, hk, hn⟩
   · simp only [FT.children_node]
     rw [chain_map]
-    refine chain_imp ?_ cs hg.2.1
+    refine chain_imp ?_ cs (sep_of_xchain cs hg.2.1 hm.1)
     intro u v huv
     simp only [fin_x]
     unfold SepR at huv
     grind
   · obtain ⟨k0, hk0, rfl⟩ := List.mem_map.mp hk
-    exact ih k0 hk0 (hg.2.2 k0 hk0) _ _ n hn
+    exact ih k0 hk0 (hg.2.2 k0 hk0) (hm.2 k0 hk0) _ _ n hn
 
 /-- every leaf of the second-pass tree is at least `-adj` -/
 theorem fin_leaves (P : Params) (H : Nat) (a : Rat) :
@@ -362,30 +405,20 @@ theorem maxShift_nonneg (sub : Rat) (node : PT) (ri : Nat) : ∀ (l : List PT) (
     apply maxShift_nonneg
     grind
 
-theorem sep_of_xchain {sib : Rat} : ∀ (l : List PT),
-    Chain (fun a b => b = a + sib) (l.map PT.x) → (l.map PT.shift).Pairwise (· ≤ ·) → Chain (SepR sib) l
-  | [], _, _ => trivial
-  | [_], _, _ => trivial
-  | a :: b :: l, hx, hs => by
-    simp only [List.map, Chain] at hx
-    simp only [List.map, List.pairwise_cons] at hs
-    refine ⟨?_, sep_of_xchain (b :: l) hx.2 (by simpa [List.pairwise_cons] using hs.2)⟩
-    have h1 := hx.1
-    have h2 := hs.1 b.shift (by simp)
-    unfold SepR
-    grind
-
-/-- loop invariant of the sibling loop -/
-structure Inv (sib : Rat) (done : List PT) (pend : List Rat) : Prop where
-  xs : Chain (fun a b => b = a + sib) (done.map PT.x)
-  mono : (done.map PT.shift ++ pend).Pairwise (· ≤ ·)
+/-- loop invariant of the sibling loop (independent of the shifts) -/
+structure Inv (sib : Rat) (done : List PT) : Prop where
+  xs : XChain sib done
   good : ∀ k ∈ done, Good sib k
 
-/-- what the loop delivers: a well separated list of good nodes -/
-def KidsOK (sib : Rat) (kids : List PT) : Prop := Chain (SepR sib) kids ∧ ∀ k ∈ kids, Good sib k
+/-- what the loop delivers -/
+def KidsOK (sib : Rat) (kids : List PT) : Prop := XChain sib kids ∧ ∀ k ∈ kids, Good sib k
 
 theorem place_shift (sib : Rat) (done : List PT) (h : Rat) (kids : List PT) :
     (place sib done h kids).shift = h := by
+  unfold place; cases done.getLast? <;> simp
+
+theorem place_children (sib : Rat) (done : List PT) (h : Rat) (kids : List PT) :
+    (place sib done h kids).children = kids := by
   unfold place; cases done.getLast? <;> simp
 
 theorem place_x (sib : Rat) (done : List PT) (h : Rat) (kids : List PT) (z : PT)
@@ -419,13 +452,14 @@ theorem shiftSiblings_snd_length (sub : Rat) (done : List PT) (node : PT) (tl : 
   dsimp only
   split <;> simp [bumpR_length]
 
-theorem shiftSiblings_inv {sib sub : Rat} {done : List PT} {h : Rat} {tl : List Rat} {node : PT}
-    (hinv : Inv sib done (h :: tl)) (hshift : node.shift = h)
+theorem shiftSiblings_inv {sib sub : Rat} {done : List PT} {tl : List Rat} {node : PT}
+    (hinv : Inv sib done)
     (hx : ∀ z, done.getLast? = some z → node.x = z.x + sib) (hgood : Good sib node) :
-    Inv sib (shiftSiblings sub done node tl).1 (shiftSiblings sub done node tl).2 := by
-  have hall : Inv sib (done ++ [node]) tl := by
-    refine ⟨?_, ?_, ?_⟩
-    · rw [List.map_append]
+    Inv sib (shiftSiblings sub done node tl).1 := by
+  have hall : Inv sib (done ++ [node]) := by
+    refine ⟨?_, ?_⟩
+    · unfold XChain
+      rw [List.map_append]
       apply chain_snoc _ _ hinv.xs
       intro z hz
       rw [List.getLast?_map] at hz
@@ -434,8 +468,6 @@ theorem shiftSiblings_inv {sib sub : Rat} {done : List PT} {h : Rat} {tl : List 
       | some z0 =>
         simp [hl] at hz; subst hz
         simpa using hx z0 hl
-    · have := hinv.mono
-      simpa [hshift] using this
     · intro k hk
       rcases List.mem_append.mp hk with hk | hk
       · exact hinv.good k hk
@@ -444,57 +476,280 @@ theorem shiftSiblings_inv {sib sub : Rat} {done : List PT} {h : Rat} {tl : List 
   by_cases hj : done.length = 0
   · simp only [hj, if_true]; exact hall
   · simp only [hj, if_false]
-    have hs : 0 ≤ maxShift sub node done.length done 0 0 :=
-      maxShift_nonneg sub node _ done 0 0 (Rat.le_refl)
-    refine ⟨?_, ?_, ?_⟩
-    · rw [bumpPT_map_x]; exact hall.xs
-    · rw [bumpPT_map_shift]
-      have := bumpR_pairwise hs done.length 0 _ hall.mono
-      rw [bumpR_append] at this
-      simpa [Nat.add_comm] using this
+    refine ⟨?_, ?_⟩
+    · unfold XChain; rw [bumpPT_map_x]; exact hall.xs
     · exact bumpPT_good _ _ _ _ hall.good
 
-theorem fpGroup_ok (P : Params) : ∀ (ts : List Tree), (∀ t ∈ ts, KidsOK P.sib (fpKids P t)) →
-    ∀ (done : List PT) (pend : List Rat), Inv P.sib done pend → pend.length = ts.length →
-      KidsOK P.sib (fpGroup P ts done pend)
-  | [], _, done, pend, hinv, hlen => by
+theorem fpGroup_ok (P : Params) : ∀ (ts : List ST), (∀ t ∈ ts, KidsOK P.sib (fpKids P t)) →
+    ∀ (done : List PT) (pend : List Rat), Inv P.sib done → KidsOK P.sib (fpGroup P ts done pend)
+  | [], _, done, pend, hinv => by
     simp only [fpGroup]
-    have : pend = [] := by cases pend <;> simp_all
-    subst this
-    exact ⟨sep_of_xchain done hinv.xs (by simpa using hinv.mono), hinv.good⟩
-  | t :: ts, ih, done, pend, hinv, hlen => by
-    cases pend with
-    | nil => simp at hlen
-    | cons h tl =>
-      simp only [fpGroup, List.headD_cons, List.tail_cons]
-      have hk := ih t (by simp)
-      have hinv' := shiftSiblings_inv (sub := P.sub) (node := place P.sib done h (fpKids P t)) hinv
-        (place_shift _ _ _ _) (fun z hz => place_x _ _ _ _ z hz) (place_good _ _ _ _ hk)
-      apply fpGroup_ok P ts (fun t ht => ih t (by simp [ht])) _ _ hinv'
-      rw [shiftSiblings_snd_length]; simpa using hlen
+    exact ⟨hinv.xs, hinv.good⟩
+  | t :: ts, ih, done, pend, hinv => by
+    simp only [fpGroup]
+    have hk := ih t (by simp)
+    exact fpGroup_ok P ts (fun t ht => ih t (by simp [ht])) _ _
+      (shiftSiblings_inv hinv (fun z hz => place_x _ _ _ _ z hz) (place_good _ _ _ _ hk))
 
-theorem fpKids_ok (P : Params) : ∀ t : Tree, KidsOK P.sib (fpKids P t) := by
-  apply Tree.ind
-  intro i n a cs ih
+theorem ST.ind {P : ST → Prop}
+    (h : ∀ s cs, (∀ c ∈ cs, P c) → P (.node s cs)) : ∀ t, P t
+  | .node s cs => h s cs (fun c _ => ST.ind h c)
+
+theorem fpKids_ok (P : Params) : ∀ t : ST, KidsOK P.sib (fpKids P t) := by
+  apply ST.ind
+  intro s cs ih
   simp only [fpKids]
-  apply fpGroup_ok P cs ih
-  · refine ⟨trivial, ?_, by simp⟩
-    simp only [List.map_nil, List.nil_append]
-    rw [List.pairwise_replicate]
-    right; exact Rat.le_refl
-  · simp
+  exact fpGroup_ok P cs ih _ _ ⟨trivial, by simp⟩
 
-theorem firstPass_good (P : Params) (t : Tree) : Good P.sib (firstPass P t) := by
+/-- holds for ARBITRARY shifts on entry -/
+theorem firstPass_good (P : Params) (t : ST) : Good P.sib (firstPass P t) := by
   have h := fpKids_ok P t
   simp only [firstPass]
   rw [good_node]
   exact ⟨fun _ => by grind, h.1, h.2⟩
 
+/-! ## conditions on the shift vectors of the sibling groups are carried through a run -/
+
+/-- `Q` survives the shift loop: adding `s·m/j` (`s ≥ 0`) to the `m`-th component -/
+def BumpClosed (Q : List Rat → Prop) : Prop :=
+  ∀ (s : Rat) (j : Nat) (l : List Rat), 0 ≤ s → Q l → Q (bumpR s j 0 l)
+
+theorem bumpClosed_mono : BumpClosed (fun l => l.Pairwise (· ≤ ·)) :=
+  fun _ j l hs h => bumpR_pairwise hs j 0 l h
+
+theorem bumpClosed_nonneg : BumpClosed (fun l => ∀ s ∈ l, (0 : Rat) ≤ s) := by
+  intro s j l hs h y hy
+  obtain ⟨x, hx, k, _, rfl⟩ := bumpR_mem hy
+  have h1 := h x hx
+  have h2 := rat_scale_mono hs (Nat.zero_le k) j
+  have hz : ((0 : Nat) : Rat) = 0 := by first | rfl | simp | exact_mod_cast rfl
+  have h3 : s * ((0 : Nat) : Rat) / (j : Rat) = 0 := by rw [hz, Rat.mul_zero, Rat.div_def, Rat.zero_mul]
+  grind
+
+theorem bumpPT_allGroups {Q : List Rat → Prop} (s : Rat) (j : Nat) : ∀ (m : Nat) (l : List PT),
+    (∀ k ∈ l, PT.AllGroups Q k) → ∀ k ∈ bumpPT s j m l, PT.AllGroups Q k
+  | _, [], _, k, hk => by simp [bumpPT] at hk
+  | m, n :: l, h, k, hk => by
+    simp only [bumpPT, List.mem_cons] at hk
+    rcases hk with rfl | hk
+    · exact PT.allGroups_addShift.mpr (h n (by simp))
+    · exact bumpPT_allGroups s j (m + 1) l (fun k hk => h k (by simp [hk])) k hk
+
+theorem place_allGroups {Q : List Rat → Prop} (sib : Rat) (done : List PT) (h : Rat) (kids : List PT)
+    (hq : Q (kids.map PT.shift)) (hk : ∀ k ∈ kids, PT.AllGroups Q k) :
+    PT.AllGroups Q (place sib done h kids) := by
+  unfold place
+  cases done.getLast? <;> (dsimp only; rw [PT.allGroups_node]; exact ⟨hq, hk⟩)
+
+/-- what the loop delivers for `Q` -/
+def KidsQ (Q : List Rat → Prop) (kids : List PT) : Prop :=
+  Q (kids.map PT.shift) ∧ ∀ k ∈ kids, PT.AllGroups Q k
+
+theorem shiftSiblings_q {Q : List Rat → Prop} (hQ : BumpClosed Q) {sub : Rat} {done : List PT}
+    {h : Rat} {tl : List Rat} {node : PT}
+    (hq : Q (done.map PT.shift ++ h :: tl)) (hd : ∀ k ∈ done, PT.AllGroups Q k)
+    (hshift : node.shift = h) (hn : PT.AllGroups Q node) :
+    Q ((shiftSiblings sub done node tl).1.map PT.shift ++ (shiftSiblings sub done node tl).2) ∧
+      ∀ k ∈ (shiftSiblings sub done node tl).1, PT.AllGroups Q k := by
+  have hq' : Q ((done ++ [node]).map PT.shift ++ tl) := by simpa [hshift] using hq
+  have hd' : ∀ k ∈ done ++ [node], PT.AllGroups Q k := by
+    intro k hk
+    rcases List.mem_append.mp hk with hk | hk
+    · exact hd k hk
+    · simp at hk; subst hk; exact hn
+  unfold shiftSiblings
+  by_cases hj : done.length = 0
+  · simp only [hj, if_true]; exact ⟨hq', hd'⟩
+  · simp only [hj, if_false]
+    have hs : 0 ≤ maxShift sub node done.length done 0 0 :=
+      maxShift_nonneg sub node _ done 0 0 (Rat.le_refl)
+    refine ⟨?_, bumpPT_allGroups _ _ _ _ hd'⟩
+    rw [bumpPT_map_shift]
+    have := hQ _ done.length _ hs hq'
+    rw [bumpR_append] at this
+    simpa [Nat.add_comm] using this
+
+theorem fpGroup_q {Q : List Rat → Prop} (hQ : BumpClosed Q) (P : Params) : ∀ (ts : List ST),
+    (∀ t ∈ ts, KidsQ Q (fpKids P t)) → ∀ (done : List PT) (pend : List Rat),
+      Q (done.map PT.shift ++ pend) → (∀ k ∈ done, PT.AllGroups Q k) → pend.length = ts.length →
+      KidsQ Q (fpGroup P ts done pend)
+  | [], _, done, pend, hq, hd, hlen => by
+    simp only [fpGroup]
+    have : pend = [] := by cases pend <;> simp_all
+    subst this
+    exact ⟨by simpa using hq, hd⟩
+  | t :: ts, ih, done, pend, hq, hd, hlen => by
+    cases pend with
+    | nil => simp at hlen
+    | cons h tl =>
+      simp only [fpGroup, List.headD_cons, List.tail_cons]
+      have hk := ih t (by simp)
+      have hstep := shiftSiblings_q hQ (sub := P.sub) (node := place P.sib done h (fpKids P t)) hq hd
+        (place_shift _ _ _ _) (place_allGroups _ _ _ _ hk.1 hk.2)
+      apply fpGroup_q hQ P ts (fun t ht => ih t (by simp [ht])) _ _ hstep.1 hstep.2
+      rw [shiftSiblings_snd_length]; simpa using hlen
+
+theorem ST.allGroupsL_iff {Q : List Rat → Prop} :
+    ∀ {cs : List ST}, ST.AllGroupsL Q cs ↔ ∀ c ∈ cs, ST.AllGroups Q c
+  | [] => by simp [ST.AllGroupsL]
+  | c :: cs => by simp [ST.AllGroupsL, ST.allGroupsL_iff (cs := cs)]
+
+theorem ST.allGroups_node {Q : List Rat → Prop} {s : Rat} {cs : List ST} :
+    ST.AllGroups Q (.node s cs) ↔ Q (cs.map ST.shift) ∧ ∀ c ∈ cs, ST.AllGroups Q c := by
+  simp [ST.AllGroups, ST.allGroupsL_iff]
+
+theorem fpKids_q {Q : List Rat → Prop} (hQ : BumpClosed Q) (P : Params) :
+    ∀ t : ST, t.AllGroups Q → KidsQ Q (fpKids P t) := by
+  apply ST.ind
+  intro s cs ih h
+  rw [ST.allGroups_node] at h
+  simp only [fpKids]
+  exact fpGroup_q hQ P cs (fun t ht => ih t ht (h.2 t ht)) _ _ (by simpa using h.1) (by simp) (by simp)
+
+theorem firstPass_q {Q : List Rat → Prop} (hQ : BumpClosed Q) (P : Params) (t : ST)
+    (h : t.AllGroups Q) : (firstPass P t).AllGroups Q := by
+  have hk := fpKids_q hQ P t h
+  simp only [firstPass]
+  rw [PT.allGroups_node]
+  exact hk
+
+theorem PT.toSTL_eq_map : ∀ cs : List PT, PT.toSTL cs = cs.map PT.toST
+  | [] => rfl
+  | c :: cs => by simp [PT.toSTL, PT.toSTL_eq_map cs]
+
+theorem PT.toST_shift : ∀ t : PT, t.toST.shift = t.shift
+  | .node _ _ _ _ => by simp [PT.toST]
+
+theorem toST_allGroups {Q : List Rat → Prop} : ∀ t : PT, t.toST.AllGroups Q ↔ t.AllGroups Q := by
+  apply PT.ind
+  intro x m s cs ih
+  simp only [PT.toST, PT.toSTL_eq_map]
+  rw [ST.allGroups_node, PT.allGroups_node]
+  simp only [List.map_map, List.mem_map]
+  constructor
+  · rintro ⟨h1, h2⟩
+    refine ⟨?_, fun c hc => (ih c hc).mp (h2 _ ⟨c, hc, rfl⟩)⟩
+    have : cs.map (ST.shift ∘ PT.toST) = cs.map PT.shift :=
+      List.map_congr_left (fun c _ => by simp [PT.toST_shift])
+    rwa [this] at h1
+  · rintro ⟨h1, h2⟩
+    refine ⟨?_, ?_⟩
+    · have : cs.map (ST.shift ∘ PT.toST) = cs.map PT.shift :=
+        List.map_congr_left (fun c _ => by simp [PT.toST_shift])
+      rwa [this]
+    · rintro _ ⟨c, hc, rfl⟩
+      exact (ih c hc).mpr (h2 c hc)
+
+/-- a run carries `Q` from the entry shifts to the stored shifts -/
+theorem stored_q {Q : List Rat → Prop} (hQ : BumpClosed Q) (P : Params) (t : ST)
+    (h : t.clear.AllGroups Q) : (stored P t).AllGroups Q :=
+  (toST_allGroups _).mpr (firstPass_q hQ P t.clear h)
+
+/-! ## structural edits keep the conditions -/
+
+theorem mem_modNth {g : ST → ST} {y : ST} : ∀ {i : Nat} {l : List ST},
+    y ∈ modNth g i l → y ∈ l ∨ ∃ c ∈ l, y = g c
+  | _, [], h => by simp [modNth] at h
+  | 0, c :: cs, h => by
+    simp only [modNth, List.mem_cons] at h
+    rcases h with rfl | h
+    · exact Or.inr ⟨c, by simp, rfl⟩
+    · exact Or.inl (by simp [h])
+  | i + 1, c :: cs, h => by
+    simp only [modNth, List.mem_cons] at h
+    rcases h with rfl | h
+    · exact Or.inl (by simp)
+    · rcases mem_modNth (i := i) (l := cs) h with h | ⟨c', hc', rfl⟩
+      · exact Or.inl (by simp [h])
+      · exact Or.inr ⟨c', by simp [hc'], rfl⟩
+
+theorem modNth_map_shift {g : ST → ST} (hg : ∀ c, (g c).shift = c.shift) : ∀ (i : Nat) (l : List ST),
+    (modNth g i l).map ST.shift = l.map ST.shift
+  | 0, [] => rfl
+  | _ + 1, [] => rfl
+  | 0, c :: cs => by simp [modNth, hg]
+  | i + 1, c :: cs => by simp [modNth, modNth_map_shift hg i cs]
+
+theorem modifyAt_shift (f : List ST → List ST) : ∀ (p : List Nat) (t : ST),
+    (t.modifyAt f p).shift = t.shift
+  | [], .node _ _ => rfl
+  | _ :: _, .node _ _ => rfl
+
+/-- an edit of one child list keeps `Q` on every sibling group provided the new child list
+    satisfies `Q` and consists of acceptable subtrees -/
+theorem modifyAt_allGroups {Q : List Rat → Prop} (f : List ST → List ST)
+    (hf : ∀ cs, Q (cs.map ST.shift) → (∀ c ∈ cs, ST.AllGroups Q c) →
+      Q ((f cs).map ST.shift) ∧ ∀ c ∈ f cs, ST.AllGroups Q c) :
+    ∀ (p : List Nat) (t : ST), t.AllGroups Q → (t.modifyAt f p).AllGroups Q
+  | [], .node s cs, h => by
+    rw [ST.allGroups_node] at h
+    simp only [ST.modifyAt]
+    rw [ST.allGroups_node]
+    exact hf cs h.1 h.2
+  | i :: p, .node s cs, h => by
+    rw [ST.allGroups_node] at h
+    simp only [ST.modifyAt]
+    rw [ST.allGroups_node, modNth_map_shift (modifyAt_shift f p)]
+    refine ⟨h.1, ?_⟩
+    intro c hc
+    rcases mem_modNth hc with hc | ⟨c', hc', rfl⟩
+    · exact h.2 c hc
+    · exact modifyAt_allGroups f hf p c' (h.2 c' hc')
+
+theorem eraseIdx_map {α β : Type} (f : α → β) : ∀ (l : List α) (i : Nat),
+    (l.eraseIdx i).map f = (l.map f).eraseIdx i
+  | [], _ => rfl
+  | _ :: _, 0 => rfl
+  | a :: l, i + 1 => by simp [List.eraseIdx, eraseIdx_map f l i]
+
+theorem mem_of_mem_eraseIdx' {α : Type} {a : α} : ∀ {l : List α} {i : Nat}, a ∈ l.eraseIdx i → a ∈ l
+  | [], _, h => by simp at h
+  | _ :: _, 0, h => by simp [List.eraseIdx] at h; simp [h]
+  | b :: l, i + 1, h => by
+    simp only [List.eraseIdx, List.mem_cons] at h
+    rcases h with rfl | h
+    · simp
+    · simp [mem_of_mem_eraseIdx' h]
+
+theorem pairwise_eraseIdx {R : Rat → Rat → Prop} : ∀ (l : List Rat) (i : Nat),
+    l.Pairwise R → (l.eraseIdx i).Pairwise R
+  | [], _, h => by simp
+  | _ :: l, 0, h => by
+    rw [List.pairwise_cons] at h; simpa [List.eraseIdx] using h.2
+  | a :: l, i + 1, h => by
+    rw [List.pairwise_cons] at h
+    simp only [List.eraseIdx, List.pairwise_cons]
+    exact ⟨fun b hb => h.1 b (mem_of_mem_eraseIdx' hb), pairwise_eraseIdx l i h.2⟩
+
+/-! ## fresh trees -/
+
+theorem ST.ofTrees_eq_map : ∀ cs : List Tree, ST.ofTrees cs = cs.map ST.ofTree
+  | [] => rfl
+  | c :: cs => by simp [ST.ofTrees, ST.ofTrees_eq_map cs]
+
+theorem ST.ofTree_shift : ∀ t : Tree, (ST.ofTree t).shift = 0
+  | .node _ _ _ _ => by simp [ST.ofTree]
+
+theorem ofTree_allGroups {Q : List Rat → Prop} (hz : ∀ l : List Rat, (∀ s ∈ l, s = 0) → Q l) :
+    ∀ t : Tree, (ST.ofTree t).AllGroups Q := by
+  apply Tree.ind
+  intro i n a cs ih
+  simp only [ST.ofTree, ST.ofTrees_eq_map]
+  rw [ST.allGroups_node]
+  refine ⟨hz _ ?_, ?_⟩
+  · intro s hs
+    simp only [List.map_map, List.mem_map] at hs
+    obtain ⟨c, _, rfl⟩ := hs
+    simp [ST.ofTree_shift]
+  · intro c hc
+    obtain ⟨c0, hc0, rfl⟩ := List.mem_map.mp hc
+    exact ih c0 hc0
+
 /-! ## the drawing has the shape of the input -/
 
-theorem ofTrees_eq_map : ∀ cs : List Tree, Sk.ofTrees cs = cs.map Sk.ofTree
+theorem ST.skL_eq_map : ∀ cs : List ST, ST.skL cs = cs.map ST.sk
   | [] => rfl
-  | c :: cs => by simp [Sk.ofTrees, ofTrees_eq_map cs]
+  | c :: cs => by simp [ST.skL, ST.skL_eq_map cs]
 
 theorem PT.skL_eq_map : ∀ cs : List PT, PT.skL cs = cs.map PT.sk
   | [] => rfl
@@ -531,30 +786,104 @@ theorem shiftSiblings_sk (sub : Rat) (done : List PT) (node : PT) (tl : List Rat
   dsimp only
   split <;> simp [bumpPT_sk]
 
-theorem fpGroup_sk (P : Params) : ∀ (ts : List Tree),
-    (∀ t ∈ ts, (fpKids P t).map PT.sk = t.children.map Sk.ofTree) →
+theorem fpGroup_sk (P : Params) : ∀ (ts : List ST),
+    (∀ t ∈ ts, (fpKids P t).map PT.sk = t.children.map ST.sk) →
     ∀ (done : List PT) (pend : List Rat),
-      (fpGroup P ts done pend).map PT.sk = done.map PT.sk ++ ts.map Sk.ofTree
+      (fpGroup P ts done pend).map PT.sk = done.map PT.sk ++ ts.map ST.sk
   | [], _, done, pend => by simp [fpGroup]
-  | .node i n a cs :: ts, ih, done, pend => by
+  | .node s0 cs :: ts, ih, done, pend => by
     simp only [fpGroup]
     rw [fpGroup_sk P ts (fun t ht => ih t (by simp [ht])), shiftSiblings_sk, place_sk,
-      ih (.node i n a cs) (by simp)]
-    simp [Sk.ofTree, ofTrees_eq_map]
+      ih (.node s0 cs) (by simp)]
+    simp [ST.sk, ST.skL_eq_map]
 
-theorem fpKids_sk (P : Params) : ∀ t : Tree, (fpKids P t).map PT.sk = t.children.map Sk.ofTree := by
-  apply Tree.ind
-  intro i n a cs ih
-  simp only [fpKids, Tree.children_node]
+theorem fpKids_sk (P : Params) : ∀ t : ST, (fpKids P t).map PT.sk = t.children.map ST.sk := by
+  apply ST.ind
+  intro s cs ih
+  simp only [fpKids, ST.children_node]
   rw [fpGroup_sk P cs ih]
   simp
 
-theorem firstPass_sk (P : Params) : ∀ t : Tree, (firstPass P t).sk = Sk.ofTree t
-  | .node i n a cs => by
-    simp only [firstPass, PT.sk, PT.skL_eq_map, fpKids_sk, Sk.ofTree, ofTrees_eq_map, Tree.children_node]
+theorem firstPass_sk (P : Params) : ∀ t : ST, (firstPass P t).sk = t.sk
+  | .node s cs => by
+    simp only [firstPass, PT.sk, PT.skL_eq_map, fpKids_sk, ST.sk, ST.skL_eq_map, ST.children_node]
 
-theorem layout_sk (P : Params) (t : Tree) : (layout P t).sk = Sk.ofTree t := by
-  rw [layout_eq, fin_sk, firstPass_sk]
+theorem passes_sk (P : Params) (t : ST) : (passes P t).sk = t.sk := by
+  rw [passes_eq, fin_sk, firstPass_sk]
+
+/-! ## the clearing step -/
+
+theorem ST.clearL_eq_map : ∀ cs : List ST, ST.clearL cs = cs.map ST.clear
+  | [] => rfl
+  | c :: cs => by simp [ST.clearL, ST.clearL_eq_map cs]
+
+theorem ST.clear_shift : ∀ t : ST, t.clear.shift = 0
+  | .node _ _ => by simp [ST.clear]
+
+theorem clear_sk : ∀ t : ST, t.clear.sk = t.sk := by
+  apply ST.ind
+  intro s cs ih
+  simp only [ST.clear, ST.clearL_eq_map, ST.sk, ST.skL_eq_map, List.map_map]
+  congr 1
+  exact List.map_congr_left (fun c hc => by simpa using ih c hc)
+
+theorem clear_allGroups {Q : List Rat → Prop} (hz : ∀ l : List Rat, (∀ s ∈ l, s = 0) → Q l) :
+    ∀ t : ST, t.clear.AllGroups Q := by
+  apply ST.ind
+  intro s0 cs ih
+  simp only [ST.clear, ST.clearL_eq_map]
+  rw [ST.allGroups_node]
+  refine ⟨hz _ ?_, ?_⟩
+  · intro s hs
+    simp only [List.map_map, List.mem_map] at hs
+    obtain ⟨c, _, rfl⟩ := hs
+    simp [ST.clear_shift]
+  · intro c hc
+    obtain ⟨c0, hc0, rfl⟩ := List.mem_map.mp hc
+    exact ih c0 hc0
+
+theorem clear_mono (t : ST) : t.clear.Mono := by
+  apply clear_allGroups
+  intro l hl
+  rw [List.pairwise_iff_forall_sublist]
+  intro a b hab
+  have ha := hl a (hab.subset (by simp))
+  have hb := hl b (hab.subset (by simp))
+  subst ha; subst hb; exact Rat.le_refl
+
+mutual
+/-- the fresh tree of a given shape -/
+def Sk.toST : Sk → ST
+  | .node cs => .node 0 (Sk.toSTL cs)
+def Sk.toSTL : List Sk → List ST
+  | [] => []
+  | c :: cs => Sk.toST c :: Sk.toSTL cs
+end
+
+theorem Sk.toSTL_eq_map : ∀ cs : List Sk, Sk.toSTL cs = cs.map Sk.toST
+  | [] => rfl
+  | c :: cs => by simp [Sk.toSTL, Sk.toSTL_eq_map cs]
+
+/-- clearing forgets everything but the shape -/
+theorem clear_eq_of_sk : ∀ t : ST, t.clear = Sk.toST t.sk := by
+  apply ST.ind
+  intro s cs ih
+  simp only [ST.clear, ST.clearL_eq_map, ST.sk, ST.skL_eq_map, Sk.toST, Sk.toSTL_eq_map, List.map_map]
+  congr 1
+  exact List.map_congr_left (fun c hc => by simpa using ih c hc)
+
+theorem layoutS_sk (P : Params) (t : ST) : (layoutS P t).sk = t.sk := by
+  rw [layoutS, passes_sk, clear_sk]
+
+theorem toST_sk : ∀ t : PT, t.toST.sk = t.sk := by
+  apply PT.ind
+  intro x m s cs ih
+  simp only [PT.toST, PT.toSTL_eq_map, ST.sk, ST.skL_eq_map, PT.sk, PT.skL_eq_map, List.map_map]
+  congr 1
+  exact List.map_congr_left (fun c hc => by simpa using ih c hc)
+
+theorem stored_sk (P : Params) (t : ST) : (stored P t).sk = t.sk := by
+  simp [stored, toST_sk, firstPass_sk, clear_sk]
 
 /-! ## the fuel of `getSubtreeShift` never runs out -/
 
